@@ -30,6 +30,8 @@ struct ctx
     std::vector<std::vector<T>> expect_grid;       // vegas: grid the current iteration must sample with
     int dists = 0;
     bool half = false;   // integrand vanishes on half of the domain
+    long iter = 0;       // index (0-based, counted over the whole history) of the iteration in progress
+    long zero_iter = -1; // the integrand is identically zero in this iteration
     std::vector<std::string> names;
 };
 
@@ -123,12 +125,14 @@ struct vegas_kind
     {
         auto f0 = [&x](hep::vegas_point<T> const& p) {
             observe(x, p);
+            if (x.iter == x.zero_iter) return T();
             T d = (p.point()[0] - T(0.3)) * T(8);
             if (x.half && p.point()[0] > T(0.5)) return T();
             return T(1) / (T(1) + d * d) + p.point()[1];
         };
         auto f1 = [&x](hep::vegas_point<T> const& p, hep::projector<T>& pr) {
             observe(x, p);
+            if (x.iter == x.zero_iter) return T();
             T d = (p.point()[0] - T(0.3)) * T(8);
             T v = T(1) / (T(1) + d * d) + p.point()[1];
             pr.add(0, p.point()[0], v);
@@ -189,9 +193,10 @@ struct mc_kind
             if (x.expect_weights[p.channel()] == T()) x.used_ok = false;
             if (!close_to(p.weight(), T(1) / tot, T(16) * std::numeric_limits<T>::epsilon())) x.used_ok = false;
         };
-        auto f0 = [obs](hep::multi_channel_point<T> const& p) { obs(p); T y = p.coordinates()[0]; return y * (T(1) - y) * T(6); };
-        auto f1 = [obs](hep::multi_channel_point<T> const& p, hep::projector<T>& pr) {
+        auto f0 = [obs, &x](hep::multi_channel_point<T> const& p) { obs(p); if (x.iter == x.zero_iter) return T(); T y = p.coordinates()[0]; return y * (T(1) - y) * T(6); };
+        auto f1 = [obs, &x](hep::multi_channel_point<T> const& p, hep::projector<T>& pr) {
             obs(p);
+            if (x.iter == x.zero_iter) return T();
             T y = p.coordinates()[0];
             T v = y * (T(1) - y) * T(6);
             pr.add(0, y, v);
@@ -223,6 +228,7 @@ struct logging_cb
         ev("Iter").i("chkstate", K::state_id(c)).i("calls", (long long) (*calls)[*index]).i("n", (long long) c.results().size()).i("text", ids().id("t:" + text_of(c)))
             .i("recorded", K::recorded_id(r)).i("derived", derived).i("usedOk", x->used_ok ? 1 : 0).i("rcalls", (long long) r.calls()).emit();
         ++*index;
+        ++x->iter;
         x->used_ok = true;
         K::expect(*x, c);
         *last = inner(c);
@@ -253,6 +259,7 @@ struct session
         b.s("via", tname(via)).i("state", K::state_id(c));
         b.emit();
         std::size_t index = 0;
+        x.iter = (long) c.results().size();
         x.used_ok = true;
         K::expect(x, c);
         logging_cb<K, C> cb{&x, hep::callback<C>(write_file ? hep::callback_mode::silent_and_write_chkpt : hep::callback_mode::silent, file, target),
@@ -291,10 +298,11 @@ struct session
     }
 
     // a history: the calls list cut into segments (given by their lengths), with a transport between consecutive segments
-    void composition(std::vector<std::size_t> const& calls, std::vector<std::size_t> const& cuts, std::vector<int> const& via)
+    void composition(std::vector<std::size_t> const& calls, std::vector<std::size_t> const& cuts, std::vector<int> const& via, bool reload_first = false)
     {
         start();
         C c = fresh();
+        if (reload_first) c = reload(c, t_text); // interrupted before the first iteration: the untouched checkpoint goes through text
         std::size_t pos = 0;
         bool stopped = false;
         for (std::size_t s = 0; s != cuts.size() && !stopped; ++s)
@@ -348,7 +356,7 @@ template <typename K, typename E> static void empty_stream_case(char const* enam
 }
 
 template <typename K, typename E>
-static void run_cfg(rng& g, char const* ename, E const& engine, int variant, int dists, T target, bool thorough)
+static void run_cfg(rng& g, char const* ename, E const& engine, int variant, int dists, T target, bool thorough, long zero_iter = -1)
 {
     session<K, E> s;
     s.variant = variant;
@@ -356,6 +364,7 @@ static void run_cfg(rng& g, char const* ename, E const& engine, int variant, int
     s.seed_engine = engine;
     s.x.dists = dists;
     s.x.half = variant == 2;
+    s.x.zero_iter = zero_iter;
     static char const* names[6] = {"", " ", "a b", " lead", "trail ", "x"};
     s.x.names = std::vector<std::string>{names[g.below(6)], names[g.below(6)]};
     s.file = scratch + "/chk_" + std::to_string(cfg_counter) + ".txt";
@@ -378,7 +387,8 @@ static void run_cfg(rng& g, char const* ename, E const& engine, int variant, int
             else ++len;
         }
         cuts.push_back(len);
-        s.composition(calls, cuts, via);
+        s.composition(calls, cuts, via, mask % 3 == 1);
+        if (mask == 0) s.composition(calls, cuts, via, true);
     }
     if (target > T() || !(mode_mask & 2)) return;
     // rollback histories: every k in 0..n+1, in memory and after a text round trip, then resume
@@ -415,6 +425,9 @@ int main(int argc, char** argv)
     run_cfg<mc_kind>(g, "knuth_b", std::knuth_b(s), 1, 1, T(), thorough);
     run_cfg<mc_kind>(g, "counter64", counter_engine<64>(s), 1, 0, T(), thorough);
     run_cfg<mc_kind>(g, "ranlux24_base", std::ranlux24_base(s), 2, 0, T(), thorough);
+    // an iteration whose sampled values are all zero (third iteration): the state must stay as it was
+    run_cfg<vegas_kind>(g, "mt19937", std::mt19937(s), 1, 0, T(), thorough, 2);
+    run_cfg<mc_kind>(g, "mt19937", std::mt19937(s), 1, 0, T(), thorough, 1);
     // early stop by target precision (built-in callback): resumed runs must stop at the same iteration
     run_cfg<plain_kind>(g, "mt19937_64", std::mt19937_64(s), 0, 0, T(0.02), thorough);
     run_cfg<vegas_kind>(g, "mt19937", std::mt19937(s), 0, 0, T(0.01), thorough);
